@@ -615,6 +615,49 @@ func (c *verifNestedClient) Do(req *http.Request) (*http.Response, error) {
 	return resp, nil
 }
 
+// VerifC19_CacheIntegrity: a cached body stays what it was when it was cached.
+// Whole real Calls, one after the other: parent p is answered 200 (tag + body
+// cached), then OTHER hook traffic passes through the same executor (another
+// parent, 1-2 calls, bodies of other lengths), then p is asked again and the
+// server answers 304: p must get exactly the body that was cached with the tag
+// it sent - not bytes of a later response that reuse the same memory.
+func VerifC19_CacheIntegrity() {
+	w := &webhookExecutorEtag{etagCache: cache.New[eTagKey, *eTagEntry](0, 0)}
+	mode, _ := verifMode(rt.Choice("unmarshal-mode", 2))
+	rP := rt.Choice("resource-state-p", 2)
+	client := &verifNestedClient{r: rP}
+	exec := newWebhookExecutor(client, "http://hook.ns/sync", common.SyncHook, mode, w, verifNow)
+
+	var first verifResp
+	err := exec.Call(&verifReq{Parent: verifParent("p")}, &first)
+	rt.Assert(err == nil && client.code == 200, "integrity/first-call-not-answered-200")
+	rt.Assert(first.n() == "v"+string(rune('0'+rP)), "integrity/first-call-got-other-body")
+
+	// other traffic: parent q, state 2 (another text), once or twice
+	others := 1 + rt.Choice("calls-in-between", 2)
+	for i := 0; i < others; i++ {
+		client.r = 2
+		var other verifResp
+		errO := exec.Call(&verifReq{Parent: verifParent("q")}, &other)
+		rt.Assert(errO == nil, "integrity/other-call-failed")
+		rt.Assert(other.n() == "v2", "integrity/other-call-got-other-body")
+	}
+
+	// p again; the resource has not changed: 304
+	client.r = rP
+	var again verifResp
+	err = exec.Call(&verifReq{Parent: verifParent("p")}, &again)
+	rt.Assert(client.code == 304, "integrity/second-call-not-conditional")
+	rt.Assert(err == nil, "integrity/304-refused-although-entry-with-sent-etag-present")
+	if err == nil {
+		rt.Cover("integrity/answered-from-cache")
+		rt.Assert(again.n() == first.n(), "integrity/304-body-differs-from-what-was-cached-with-the-etag")
+	}
+	if e, ok := w.etagCache.Get(verifKey("p")); ok {
+		rt.Assert(string(e.Response) == verifBodyOfTag(e.Etag), "integrity/cache-pairs-tag-with-other-body")
+	}
+}
+
 // ---------------------------------------------------------------- decode model
 
 // VerifC19_DecodeModel pins the agreed meaning of every response text used
